@@ -947,10 +947,25 @@ def shapes_part(ctx: vlib.Ctx, mod, mem: Members):
         ctx.hist("shape_kind", shape + ("/enc" if encode else "/dec"))
         ctx.hist("shape_slot_paths", "+".join(i[2] for i in infos) + ("/permuted" if (nh == 2 and sorted(h0) == sorted(h1) and h0 != h1) else ""))
         mixin = site.entry in ("field", "optfield", "dataclass")
-        for rep_i in range(ctx.budget(3, 4)):
+        # two positions with the same members in another order: feed both the inputs on which the property's
+        # reference distinguishes the two orders (found by search over the input pool, per member set)
+        sens = []
+        if not encode and infos[0][2] == "union" and infos[1][2] == "union" and infos[0][1] != infos[1][1] \
+                and sorted(map(repr, infos[0][1])) == sorted(map(repr, infos[1][1])):
+            for dx in DECODE_INPUTS:
+                d = eval(dx, mod.__dict__)
+                acc = lambda m, d=d: mem.accept(m, d)
+                if not same(ref_union_decode(infos[0][1], d, acc), ref_union_decode(infos[1][1], d, acc)):
+                    sens.append(dx)
+            sens = rng.sample(sens, min(len(sens), ctx.budget(4, 6)))
+            ctx.hist("shape_order_sensitive_inputs", str(len(sens)))
+        for rep_i in range(ctx.budget(3, 4) + len(sens)):
             if not encode:
-                a = rng.choice(ORDER_SENSITIVE if rng.random() < 0.6 else DECODE_INPUTS)
-                b = a if rng.random() < 0.5 else rng.choice(ORDER_SENSITIVE if rng.random() < 0.6 else DECODE_INPUTS)
+                if rep_i >= ctx.budget(3, 4):
+                    a = b = sens[rep_i - ctx.budget(3, 4)]
+                else:
+                    a = rng.choice(ORDER_SENSITIVE if rng.random() < 0.6 else DECODE_INPUTS)
+                    b = a if rng.random() < 0.5 else rng.choice(ORDER_SENSITIVE if rng.random() < 0.6 else DECODE_INPUTS)
                 inx = site.fmt(site.in_tpl, a, b)
                 whole = outcome(site.decode, eval(inx, mod.__dict__))
                 exps, ds = [], []
